@@ -386,13 +386,14 @@ func (w *world) stepExecute(instancePool []string) {
 		prio = 0
 	}
 	plan := &sizePlan{
-		ActionID:    fmt.Sprintf("x%d", w.nextExec),
-		Choice:      rapid.IntRange(0, 2).Draw(w.rt, "sizeChoice"),
-		Expected:    time.Duration(rapid.SampledFrom([]int{0, 1, 1, 5, 60}).Draw(w.rt, "expected")) * time.Second,
-		TimeoutSec:  rapid.SampledFrom([]int{10, 60, 600}).Draw(w.rt, "timeout"),
-		RetryOnFail: rapid.Bool().Draw(w.rt, "retryOnFail"),
-		BgOnSuccess: rapid.IntRange(0, 3).Draw(w.rt, "bg") == 0,
-		BgChoice:    rapid.IntRange(0, 2).Draw(w.rt, "bgChoice"),
+		ActionID:      fmt.Sprintf("x%d", w.nextExec),
+		Choice:        rapid.IntRange(0, 2).Draw(w.rt, "sizeChoice"),
+		Expected:      time.Duration(rapid.SampledFrom([]int{0, 1, 1, 5, 60}).Draw(w.rt, "expected")) * time.Second,
+		TimeoutSec:    rapid.SampledFrom([]int{10, 60, 600}).Draw(w.rt, "timeout"),
+		RetryOnFail:   rapid.Bool().Draw(w.rt, "retryOnFail"),
+		RetryExpected: time.Duration(rapid.SampledFrom([]int{0, 1, 5, 60, 120}).Draw(w.rt, "retryExpected")) * time.Second,
+		BgOnSuccess:   rapid.IntRange(0, 3).Draw(w.rt, "bg") == 0,
+		BgChoice:      rapid.IntRange(0, 2).Draw(w.rt, "bgChoice"),
 	}
 	if w.alwaysRetry {
 		plan.Choice = 0
